@@ -18,6 +18,11 @@ class SimCrash(BaseException):
     """The process 'dies' here: unwinds to the harness, nothing in the generator catches it."""
 
 
+class SimEscape(BaseException):
+    """A mutating file-system call outside the sandbox was attempted.  It is NOT performed (the simulator
+    must never let the system under test touch the real machine); it is recorded and the run is ended."""
+
+
 _WRITE_FLAGS = os.O_WRONLY | os.O_RDWR | os.O_CREAT | os.O_TRUNC | os.O_APPEND
 
 
@@ -63,6 +68,8 @@ class FsSeam:
         error_errno: int = _errno.ENOSPC,
     ) -> None:
         self.watch_root = os.path.realpath(watch_root)
+        self.sandbox_root = os.path.dirname(self.watch_root)  # harness-owned files (config, documents, fresh trees) live here
+        self.escapes: list[dict] = []
         self.crash_at = crash_at
         self.torn = torn
         self.error_at = error_at
@@ -107,6 +114,13 @@ class FsSeam:
             rec = {"k": None, "op": op, "path": self._rel(path), "ok": None, "foreign": True}
             rec.update(extra)
             self.log.append(rec)
+            harness_owned = path == self.sandbox_root or path.startswith(self.sandbox_root + os.sep)
+            if not (harness_owned or path == os.devnull or path.startswith("/proc/")):
+                rec["blocked"] = True
+                rec["ok"] = False
+                self.escapes.append(rec)
+                self.fired = self.fired or "escape-blocked"
+                raise SimEscape(f"blocked {op} on {path}: outside the sandbox")
             return rec
         k = self.k
         self.k += 1
@@ -276,7 +290,7 @@ class FsSeam:
                     op=r["op"],
                     path=r["path"],
                     ok=r.get("ok"),
-                    extra="".join(f" {x}={r[x]}" for x in ("len", "sha", "err", "fault", "torn_len", "src") if x in r),
+                    extra="".join(f" {x}={r[x]}" for x in ("len", "sha", "err", "fault", "torn_len", "src", "blocked") if x in r),
                 )
             )
         return out
